@@ -117,6 +117,38 @@ CORE = [
     'W(x) :- G(x), B(x);', {'Q': 2},
     {'W': lambda db: [(x,) for x in {x for (x, y) in db['Q'] if x > 0}]}, tags=('C01', 'C08', 'C17')),
   # degenerate shapes: no table at all, constants only, single-fact predicates that get injected
+  # an if-then-else of record literals bound to a variable and subscripted twice in one rule
+  S('if_records_two_subscripts', 'P(x, r.a, r.b) :- A(x), r == (if x > 1 then {a: x, b: x + 1} else {a: 100, b: 200});\n'
+    'Rec(x) = (if x > 1 then {a: x, b: x + 1} else {a: 100, b: 200});\nP2(x, r.b, r.a, r.b) :- A(x), r == Rec(x);',
+    {'A': 1},
+    {'P': lambda db: [(x, x, x + 1) if x > 1 else (x, 100, 200) for (x,) in db['A']],
+     'P2': lambda db: [(x, x + 1, x, x + 1) if x > 1 else (x, 200, 100, 200) for (x,) in db['A']]}),
+  # parenthesised groups of conjuncts (with and without a disjunction inside)
+  S('paren_groups', 'P(x) :- (A(x), B(x)), x > 0;\nP2(x) :- (A(x), (B(x) | x == 1)), x < 3;\n'
+    'P3(x) :- x > 0, ((A(x)), (B(x), x < 3));', {'A': 1, 'B': 1},
+    {'P': lambda db: [(x,) for (x,) in db['A'] for (y,) in db['B'] if x == y and x > 0],
+     'P2': lambda db: [(x,) for (x,) in db['A'] if x < 3 for alt in ([1 for (y,) in db['B'] if y == x] + [1] * (x == 1))],
+     'P3': lambda db: [(x,) for (x,) in db['A'] for (y,) in db['B'] if x == y and 0 < x < 3]},
+    tags=('C01', 'C15')),
+  # a predicate with several hundred facts
+  S('many_facts', ''.join('T(%d);%s' % (i % 97, '\n' if i % 10 == 9 else ' ') for i in range(301)) +
+    '\nQ(x) :- T(x), x > 90;\nN() += 1 :- T(x);\nSm() += x :- T(x);', {},
+    {'Q': lambda db: [(i % 97,) for i in range(301) if i % 97 > 90], 'N': lambda db: [(301,)],
+     'Sm': lambda db: [(sum(i % 97 for i in range(301)),)]}, tags=('C01', 'C07')),
+  # a body-less functional predicate whose value is an aggregating expression, injected into a caller that
+  # uses the same variable names as the sub-query
+  S('bodyless_combine_value', 'Total() = Sum{y :- Q(x, y)};\nDeg(x) = Sum{1 :- Q(x, y)};\n'
+    'P(y, t) :- A(y), t == Total();\nP2(y, Deg(y)) :- A(y);\nP3(x, Deg(x)) :- A(x);', {'A': 1, 'Q': 2},
+    {'P': lambda db: [(y, sum(v for (_, v) in db['Q']) if db['Q'] else None) for (y,) in db['A']],
+     'P2': lambda db: [(y, (lambda l: sum(l) if l else None)([1 for (x, _) in db['Q'] if x == y])) for (y,) in db['A']],
+     'P3': lambda db: [(y, (lambda l: sum(l) if l else None)([1 for (x, _) in db['Q'] if x == y])) for (y,) in db['A']]},
+    tags=('C01', 'C02', 'C08'), max_rows={'quick': 2, 'thorough': 2}),
+  # a literal in a head column of an injected predicate, called with a different literal in that column
+  S('constant_clash', 'Pet("cat", n) :- A(n);\nPet2(1, n) :- A(n);\nWrap(2, x) :- Pet2(1, x);\n'
+    'P(n) :- Pet("dog", n);\nPc(n) :- Pet("cat", n);\nP2(x) :- Pet2(2, x);\nP3(x) :- Wrap(2, x);\nP4(x) :- Wrap(1, x);',
+    {'A': 1},
+    {'P': lambda db: [], 'Pc': lambda db: list(db['A']), 'P2': lambda db: [], 'P3': lambda db: list(db['A']),
+     'P4': lambda db: []}, tags=('C01', 'C08')),
   S('tableless', 'Threshold(5);\nSmall(x) :- Threshold(x), x < 3;\nBig(x) :- Threshold(x), x > 3;\n'
     'C(y) :- y == 2 + 2, y > 10;\nC2(y) :- y == 2 + 2, y < 10;\n'
     'Mixed(x) :- x == 5, (x > 7 | x < 9 | x == 5);\nPair(x, y) :- x in [1, 2], y == x + 1, y != 2;', {},
@@ -237,6 +269,27 @@ AGG = [
     {'P': lambda db: [(x, _none_if_empty(nn([_none_if_empty([z for (y2, z) in db['Q'] if y2 == y], max)
                                              for (x2, y) in db['Q'] if x2 == x]), sum))
                       for (x,) in db['A']]}, tags=('C02',)),
+  # negation nested in negation: an existence test, never a join
+  S('double_negation', 'P(x) :- A(x), ~(~B(x));\nP2(x) :- A(x), ~(~Q(x, y));\nP3(x) :- A(x), ~(A(x), ~B(x));\n'
+    'P4(x) :- A(x), ~(~(Q(x, y), B(y)));\nN(x) += 1 :- A(x), ~(~Q(x, y));\n'
+    'L(x) :- A(x), Max{1 :- Max{1 :- B(x)} is null} is null;', {'A': 1, 'B': 1, 'Q': 2},
+    {'P': lambda db: [(x,) for (x,) in db['A'] if [1 for (b,) in db['B'] if b == x]],
+     'P2': lambda db: [(x,) for (x,) in db['A'] if [1 for (x2, y) in db['Q'] if x2 == x]],
+     'P3': lambda db: [(x,) for (x,) in db['A'] if [1 for (b,) in db['B'] if b == x]],
+     'P4': lambda db: [(x,) for (x,) in db['A'] if [1 for (x2, y) in db['Q'] if x2 == x for (b,) in db['B'] if b == y]],
+     'N': lambda db: agg([(x, 1) for (x,) in db['A'] if [1 for (x2, y) in db['Q'] if x2 == x]],
+                         lambda r: (r[0],), lambda r: r[1], sum),
+     'L': lambda db: [(x,) for (x,) in db['A'] if [1 for (b,) in db['B'] if b == x]]},
+    tags=('C02', 'C11'), max_rows={'quick': 2, 'thorough': 2}),
+  # the same body (or fact) stated twice contributes twice to a non-idempotent aggregate
+  S('multi_body_identical', 'V(x) += 1 :- A(x);\nV(x) += 1 :- A(x);\nW(x) += 1 :- A(x) | B(x) | A(x);\n'
+    'Vf("a") += 1;\nVf("a") += 1;\nVf("b") += 1;\nLs(x) List= 7 :- A(x);\nLs(x) List= 7 :- A(x);', {'A': 1, 'B': 1},
+    {'V': lambda db: agg([(x, 1) for (x,) in db['A']] * 2, lambda r: (r[0],), lambda r: r[1], sum),
+     'W': lambda db: agg([(x, 1) for (x,) in db['A']] * 2 + [(x, 1) for (x,) in db['B']],
+                         lambda r: (r[0],), lambda r: r[1], sum),
+     'Vf': lambda db: [('a', 2), ('b', 1)],
+     'Ls': lambda db: agg([(x, 7) for (x,) in db['A']] * 2, lambda r: (r[0],), lambda r: r[1], lambda vs: J(list(vs)))},
+    tags=('C02',)),
   S('negation', 'P(x) :- A(x), ~B(x);\nP2(x) :- A(x), ~(Q(x, y), B(y));\nP3(x, y) :- Q(x, y), ~(x == y, B(x));',
     {'A': 1, 'B': 1, 'Q': 2},
     {'P': lambda db: [(x,) for (x,) in db['A'] if not [1 for (b,) in db['B'] if b == x]],
@@ -595,6 +648,22 @@ FUNCTORS = [
      'F': lambda db: [(x + 1000,) for (x,) in db['X']] + list(db['X']),
      'B': lambda db: [(x + 1000,) for (x,) in db['A2']] + list(db['A2'])},
     tags=('C04', 'C07'), max_rows={'quick': 2, 'thorough': 2}, cap={'quick': 150, 'thorough': 1500}),
+  # the argument is mentioned inside a list literal of an intermediate predicate and directly by the functor
+  S('functor_arg_in_list_literal', 'Lo() = 1;\nHi() = 3;\nMid(x) :- A(x), x in [Lo(), Hi()];\n'
+    'F(x) :- Mid(x) | (A(x), x == Lo() + 10);\nTwo() = 2;\nN := F(Lo: Two);', {'A': 1},
+    {'F': lambda db: [(x,) for (x,) in db['A'] for e in (1, 3) if x == e] + [(x,) for (x,) in db['A'] if x == 11],
+     'N': lambda db: [(x,) for (x,) in db['A'] for e in (2, 3) if x == e] + [(x,) for (x,) in db['A'] if x == 12],
+     'Mid': lambda db: [(x,) for (x,) in db['A'] for e in (1, 3) if x == e]},
+    tags=('C04',), domain=[1, 2, 3, 11, 12]),
+  # the functor and the predicate it is built from both carry row-affecting annotations of the same kinds
+  S('functor_annotated_pair', '@OrderBy(Base, "col0 desc");\n@Limit(Base, 3);\nBase(x) :- Src(x);\n'
+    '@OrderBy(F, "col0");\n@Limit(F, 2);\nF(x) :- Base(x);\nG := F(Src: Alt);\nOut(x) :- G(x);\nOutF(x) :- F(x);',
+    {'Src': 1, 'Alt': 1},
+    {'Out': lambda db: [(x,) for x in sorted(sorted([x for (x,) in db['Alt']], reverse=True)[:3])[:2]],
+     'OutF': lambda db: [(x,) for x in sorted(sorted([x for (x,) in db['Src']], reverse=True)[:3])[:2]]},
+    tags=('C04', 'C18'), dbs=[{'Src': [(1,), (2,), (3,), (4,), (5,)], 'Alt': [(10,), (20,), (30,), (40,), (50,)]},
+                              {'Src': [(5,), (1,), (4,)], 'Alt': [(7,), (9,), (8,), (6,)]},
+                              {'Src': [(1,)], 'Alt': []}]),
   S('functor_constant_arg', 'Lim() = 0;\nP(x) :- A(x), x > Lim();\nQ := P(Lim: 1);\nR := P(Lim: 1);', {'A': 1},
     {'P': lambda db: [(x,) for (x,) in db['A'] if x > 0], 'Q': lambda db: [(x,) for (x,) in db['A'] if x > 1],
      'R': lambda db: [(x,) for (x,) in db['A'] if x > 1]}, tags=('C04',)),
@@ -706,7 +775,10 @@ BUILTINS = [
     tags=('C20', 'C07', 'C02'),
     dbs=[{'T': [(0, 'p', 50), (0, 'q', 40), (0, 'r', 30), (0, 's', 35), (0, 't', 10)]},
          {'T': [(0, 'p', 1), (0, 'q', 2), (0, 'r', 3), (1, 's', 4)]},
-         {'T': [(0, 'p', 3), (0, 'q', 1)]}, {'T': []}],
+         {'T': [(0, 'p', 3), (0, 'q', 1)]}, {'T': []},
+         # ordering values that are strings, negative numbers and zero
+         {'T': [(0, 'p', 'pear'), (0, 'q', 'apple'), (0, 'r', 'zebra'), (1, 's', 'kiwi'), (1, 't', '2024-03-17')]},
+         {'T': [(0, 'p', -5), (0, 'q', 0), (0, 'r', 3), (0, 's', -1)]}],
     row_orders=True, row_norm='json_compact'),
 ]
 
